@@ -128,21 +128,25 @@ def runCase (cfg : Config) (withQueries : Bool) (body : List (List String)) : Li
   final.out.reverse
 
 /-- how many fed blocks were inside the hypotheses of the C01–C04 step theorem (Props/C01 `step_discipline`):
-    (steps, steps on a state in the theorem's scope, of which every hypothesis held) -/
-def thmStats (cfg : Config) (body : List (List String)) : Nat × Nat × Nat :=
+    (steps; steps on a state in the theorem's scope; of which every hypothesis held; steps covered by
+    `history_discipline` from the initial state: exclusive known LIB and every hypothesis held at every step so far) -/
+def thmStats (cfg : Config) (body : List (List String)) : Nat × Nat × Nat × Nat :=
   let handlerSees := cfg.matches .new && cfg.matches .undo && cfg.matches .irreversible
-  let r := body.foldl (fun (acc : FState × Bool × Nat × Nat × Nat) ws =>
-    let (s, dead, n, sc, ok) := acc
+  let chain0 := handlerSees && (match cfg.root with | some (.exclusive r) => r.id != "" | _ => false)
+  let r := body.foldl (fun (acc : FState × Bool × Bool × Nat × Nat × Nat × Nat) ws =>
+    let (s, dead, chain, n, sc, ok, cov) := acc
     if dead then acc else
     match parseBlkOp ws with
     | none => acc
     | some (b, failAt) =>
       let inScope := handlerSees && !s.includeInit && s.db.libRef.id != ""
       let hyp := inScope && stepOKb s b
+      let chain' := chain && hyp
       let (s', _, res) := processBlock cfg s b failAt
-      (s', res == .errHandler, n + 1, sc + (if inScope then 1 else 0), ok + (if hyp then 1 else 0)))
-    (init cfg, false, 0, 0, 0)
-  (r.2.2.1, r.2.2.2.1, r.2.2.2.2)
+      (s', res == .errHandler, chain', n + 1, sc + (if inScope then 1 else 0), ok + (if hyp then 1 else 0),
+        cov + (if chain' then 1 else 0)))
+    (init cfg, false, chain0, 0, 0, 0, 0)
+  (r.2.2.2.1, r.2.2.2.2.1, r.2.2.2.2.2.1, r.2.2.2.2.2.2)
 
 open BstreamVerif.Consumer in
 def parseObs (ws : List String) : Option Obs :=
@@ -235,7 +239,8 @@ def handle (hdr : List String) (body : List (List String)) : List String :=
       then BstreamVerif.Drv.HubMon.run body else []
     model ++ (fails ++ hubFails).map (fun (p, why) => s!"monitor {p} FAIL {p.toLower}-{slug why} :: {why}") ++ twinFail ++
       ["note applies " ++ ",".intercalate (BstreamVerif.Consumer.appliesTo cfg (parseImpl body))] ++
-      (let (n, sc, ok) := thmStats cfg body
-       [s!"note stat thm.steps {n}", s!"note stat thm.steps_in_scope {sc}", s!"note stat thm.steps_all_hypotheses_hold {ok}"])
+      (let (n, sc, ok, cov) := thmStats cfg body
+       [s!"note stat thm.steps {n}", s!"note stat thm.steps_in_scope {sc}", s!"note stat thm.steps_all_hypotheses_hold {ok}",
+        s!"note stat thm.steps_covered_by_history_theorem {cov}"])
 
 end BstreamVerif.Drv.ForkableDrv
